@@ -77,18 +77,7 @@ def harness_for(seed):
         kern = bpfkernel.Kernel(POSSIBLE[E.choose(len(POSSIBLE),
                                                   "possible CPUs")])
         undo = kern.install(bpfm)
-        saved_cpu = am.__dict__.get("cpu_count")
-        am.cpu_count = lambda: ONLINE
-        saved_open = am.__dict__.get("open")
-
-        def fake_open(path, *a, **k):
-            import io
-            if "cpu/possible" in str(path):
-                return io.StringIO(f"0-{kern.possible - 1}\n")
-            if "cpu/online" in str(path):
-                return io.StringIO(f"0-{ONLINE - 1}\n")
-            raise FileNotFoundError(path)
-        am.open = fake_open
+        undo_cpus = bpfkernel.stub_cpus(am, ONLINE, kern.possible)
         pysym.SYM_BYTEARRAYS = True
         try:
             Prog, Key, Value = build(spec)
@@ -127,11 +116,7 @@ def harness_for(seed):
                 pass
         finally:
             undo()
-            am.cpu_count = saved_cpu
-            if saved_open is None:
-                am.__dict__.pop("open", None)
-            else:
-                am.open = saved_open
+            undo_cpus()
             pysym.SYM_BYTEARRAYS = False
         E.prove(len(kern.log) > 0, "map operations were issued")
     return harness
